@@ -4,12 +4,14 @@
    had; globals keep their own name wherever they are used; the call lines of the script are the calls of the
    program in evaluation order (C04 theorems).
    Proved for functions whose body is a program of Sem/LoopPreserve.v (assignments, prints, conditionals, loops, calls of
-   earlier functions) followed by one return statement, and for single-result calls x = f(..), x := f(..), f(..) with
-   call-free arguments: the simulation itself (C02_function_refines, C02_calls_refined, C02_calls_preserved) -
-   arguments are bound to the parameters in order, the body sees the globals in place and its own frame, the caller's
-   locals are unchanged whatever the names, all returned values reach the return registers in order, at any nesting
-   depth of calls.  NOT covered by a theorem: slices as arguments, multi-value call sites a, b = f(), calls as arguments,
-   return inside a branch or loop; these are decided on generated programs against Sem/Src.v, and the flat shell model
+   earlier functions, simultaneous assignments) followed by one return statement, and for the call statements
+   x = f(..), x := f(..), x, y = f(..), x, y := f(..), f(..) with call-free arguments: the simulation itself
+   (C02_function_refines, C02_calls_refined, C02_calls_preserved) - arguments are bound to the parameters in order, the
+   body sees the globals in place and its own frame, the caller's locals are unchanged whatever the names, all returned
+   values reach the return registers and the variables of the call site in order, at any nesting depth of calls; a
+   simultaneous assignment x, y = e1, e2 evaluates every right-hand side in the old environment (J rule j_assign_multi:
+   the values are parked in _ma<i> before the first store).  NOT covered by a theorem: slices as arguments, calls as
+   arguments or operands, return inside a branch or loop; these are decided on generated programs against Sem/Src.v, and the flat shell model
    with the script's functions as its call oracle is compared with /bin/bash on every such program it is defined on. *)
 From Verif Require Import Base.Bytestr Front.Ast Back.BashLines Back.Transpile Back.BashConv Back.NameFacts Back.BashFacts
   Sem.Src Sem.BashSem Sem.ExprPreserve Sem.StmtPreserve Sem.IfPreserve Sem.FlatLoop Sem.LoopPreserve Sem.CallPreserve.
@@ -119,6 +121,17 @@ Example C02_call_hypotheses_hold :
   (exists X b', b_code SimSamples.s_end = b_code SimSamples.s_main ++ X /\
      lruns (call_of SimSamples.script_add 1) [] [] [] X (b', bs "in 42" ++ [10] ++ bs "42 1" ++ [10] ++ bs "in 84" ++ [10])).
 Proof. exact (conj SimSamples.add_fun_ok (conj SimSamples.call_sample_derivation SimSamples.call_sample_applies)). Qed.
+
+(* func divmod(a int, b int) (int, int) { return a / b, a % b }   x := 17; y := 5; x, y = y, x; q, r := divmod(x, y);
+   print(x, y, q, r): the swap uses the old values, both results arrive in order - the hypotheses hold and the theorem gives
+   the run. *)
+Example C02_swap_and_two_results :
+  fun_ok SimSamples.script_dm SimSamples.F_dm /\
+  (exists sgF out, J (scall_at [SimSamples.F_dm] 1 0 2) SimSamples.XS_dm (Prog SimSamples.main_dm) SimSamples.sg_empty sgF out SN /\
+                   out = bs "5 17 0 5" ++ [10]) /\
+  (exists X b', b_code SimSamples.s_dm_end = b_code SimSamples.s_dm_main ++ X /\
+     lruns (call_of SimSamples.script_dm 1) [] [] [] X (b', bs "5 17 0 5" ++ [10])).
+Proof. exact (conj SimSamples.dm_fun_ok (conj SimSamples.swap_sample_derivation SimSamples.swap_sample_applies)). Qed.
 
 Example C02_sample : mangled 1 (bs "x") = bs "f1_x" /\ mangled 12 (bs "_h3") = bs "f12__h3".
 Proof. vm_compute. split; reflexivity. Qed.
